@@ -197,3 +197,8 @@ pub struct NoRecord;
 impl RecordBinding for NoRecord {}
 
 impl RecordBinding for RecordId {}
+
+#[cfg(kani)]
+mod verif_kani {
+    include!(concat!(env!("IPA_VERIF_DIR"), "/kani/protocol_mod.rs"));
+}
